@@ -3,6 +3,7 @@ package c05
 import (
 	"encoding/json"
 	"fmt"
+	"github.com/GuanceCloud/platypus/pkg/errchain"
 	"go/ast"
 	goparser "go/parser"
 	"go/token"
@@ -159,7 +160,45 @@ func checkParse(src string) (msg string, accepted bool) {
 	return msg, accepted
 }
 
+// kept holds the last few diagnostics as they were when they were returned: a diagnostic belongs to its caller and
+// must not change when the parser is used again.
+type keptDiag struct {
+	pe   *errchain.PlError
+	text string
+	file string
+	pos  int
+	ln   int
+	col  int
+	src  string
+}
+
+var kept []keptDiag
+
+func recheckKept() string {
+	for _, k := range kept {
+		if len(k.pe.PosChain) == 0 {
+			return fmt.Sprintf("a diagnostic returned earlier (for %q) lost its position after later parses", clip(k.src))
+		}
+		p := k.pe.PosChain[0]
+		if k.pe.Error() != k.text || p.File != k.file || p.Pos != k.pos || p.Ln != k.ln || p.Col != k.col {
+			return fmt.Sprintf("a diagnostic returned earlier changed after later parses: it read %q (%s offset %d), now it reads %q (%s offset %d); its text was %q", k.text, k.file, k.pos, k.pe.Error(), p.File, p.Pos, clip(k.src))
+		}
+	}
+	return ""
+}
+
 func checkParseAs(name, src string) (msg string, accepted bool) {
+	msg, accepted = checkParseAs1(name, src)
+	if msg == "" {
+		if m := recheckKept(); m != "" {
+			kept = nil
+			return m, accepted
+		}
+	}
+	return msg, accepted
+}
+
+func checkParseAs1(name, src string) (msg string, accepted bool) {
 	stmts, err, crash := impl.Parse(name, src)
 	serr := stderrNew()
 	if crash != nil {
@@ -206,6 +245,12 @@ func checkParseAs(name, src string) (msg string, accepted bool) {
 	}
 	if pe.Err == "" {
 		return "diagnostic without message", false
+	}
+	if len(src) < 4096 {
+		kept = append(kept, keptDiag{pe: pe, text: pe.Error(), file: p.File, pos: p.Pos, ln: p.Ln, col: p.Col, src: src})
+		if len(kept) > 6 {
+			kept = kept[1:]
+		}
 	}
 	return "", false
 }
@@ -561,6 +606,13 @@ func TestMalformedOperandTable(t *testing.T) {
 				one(t, "badoperand", "typed-literal-as-slice-bound", "y = 1\nif y { z = "+fmt.Sprintf(form, obj, lit)+" }\nw = 2")
 				n += 2
 			}
+		}
+	}
+	// a construct that is cut off by the end of the text, with the last line a comment (with and without its line break)
+	for _, cut := range []string{"if x {", "a = [1,", "f(", "a = 1 +", "x = {\"k\":", "for i in [1] {\n  y = 1", "a = (", "if a {\n} elif b {", "x = a[1:", "s = \"abc"} {
+		for _, tail := range []string{"\n# c", "\n# c\n", " # c", "\n#", "\n\n  # trailing é", "\n# a\n# b", "#"} {
+			one(t, "badoperand", "cut-off-construct-before-trailing-comment", cut+tail)
+			n++
 		}
 	}
 	evid.Exhaustive("malformed atom x operand position x parenthesis depth", n)
